@@ -457,6 +457,7 @@ func (c *Ctx) execBlock(st *State, fr *Frame, b *ssa.BasicBlock, pred *ssa.Basic
 			if s.dead {
 				continue
 			}
+			c.checkSiteAsserts(s, frames[i], ins)
 			nexts := c.step(s, frames[i], ins)
 			for _, n := range nexts {
 				nstates = append(nstates, n.st)
@@ -698,6 +699,10 @@ func (c *Ctx) VerifyFunction(key string) (*FuncReport, error) {
 		env := c.envForFrame(st, fr0)
 		for _, ax := range c.Axioms {
 			savedErrs := len(c.Errors)
+			env.pkg = c.typesPkgOf(fr0.fn)
+			if ax.Pkg != nil {
+				env.pkg = ax.Pkg
+			}
 			if t, err := c.evalBool(env, ax.Expr); err == nil {
 				st.Assume(t)
 				run.externUsed["axiom: "+ax.Text] = true
@@ -706,6 +711,16 @@ func (c *Ctx) VerifyFunction(key string) (*FuncReport, error) {
 		}
 	}
 	if ct != nil {
+		// every site assertion must name an existing instruction
+		have := map[string]bool{}
+		for _, si := range c.sitesOf(fn) {
+			have[fmt.Sprintf("%s#%d", si.class, si.ord)] = true
+		}
+		for k := range ct.SiteAsserts {
+			if !have[k] {
+				return nil, fmt.Errorf("CONTRACT-ERROR %s: function %s has no instruction site %q", ct.File, key, k)
+			}
+		}
 		env := c.envForFrame(st, fr0)
 		for _, l := range ct.Lets {
 			v, err := c.evalSpec(env, l.Expr)
@@ -1063,4 +1078,35 @@ func (c *Ctx) initialState(fn *ssa.Function) *State {
 	res.heldLocks = nil
 	c.initStates[pkg] = res
 	return res.Clone()
+}
+
+// checkSiteAsserts proves the assertions a contract attaches to one instruction
+// (identified by site class and ordinal, not by line number).
+func (c *Ctx) checkSiteAsserts(st *State, fr *Frame, ins ssa.Instruction) {
+	ct := c.Contracts[c.FuncKey(fr.fn)]
+	if ct == nil || len(ct.SiteAsserts) == 0 {
+		return
+	}
+	si, ok := c.sitesOf(fr.fn)[ins]
+	if !ok {
+		return
+	}
+	cls := ct.SiteAsserts[fmt.Sprintf("%s#%d", si.class, si.ord)]
+	if len(cls) == 0 {
+		return
+	}
+	ct.siteSeen(fmt.Sprintf("%s#%d", si.class, si.ord))
+	env := c.envForFrame(st, fr)
+	for i, cl := range cls {
+		t, err := c.evalGoal(env, cl.Expr)
+		if err != nil {
+			c.Errorf("CONTRACT-ERROR %s: %v", cl.Line, err)
+			continue
+		}
+		label := cl.Label
+		if label == "" {
+			label = fmt.Sprintf("assert.%d", i+1)
+		}
+		c.Oblige(st, fr, ins, "site", label, t, cl.Text)
+	}
 }
